@@ -1,5 +1,170 @@
-import Smooth.Model.Surface
+/-
+C08 (part B) — simplification is value-preserving: the n-ary rewrite rules, every step of the step
+driver, constant folding, the `_fully_reduce` loop for every budget (the give-up fallback included)
+and the normal-form pass each yield an expression that `Refines` the input:
+
+  `Refines e e'`  :=  `WF e → WF e'`,  every point supplying `e` supplies `e'`,  and wherever `e` is
+  defined (`Dom ρ e`) `e'` is defined and `den ρ e' = den ρ e`   — the domain may only grow.
+
+The twelve rules of `Add`/`Multiply` are sound unconditionally (`nary_rule_sound`).  The driver-level
+theorems take the soundness of the individual rules as the hypothesis `RulesSound Allowed` ("rule `r`
+refines `e` whenever it applies and `Allowed r e`"), `Allowed` being an abstract side condition that
+is non-trivial only for the known exception K1 (`nrootPow` on even/even); they require `Allowed` of
+exactly the rule applications the run performs: `stepRedex e` is THE (rule, redex) pair of the step
+`stepF realNum e` (`step_event_rule`, `step_redex_applies` tie it to the model), `StepOK`, `RunOK`,
+`NormOK`, `NormRedOK` collect these along `stepF`, `fullyReduceLoop`, `normalizeF`, `normReducedF`.
+Proofs: Proofs/RulesNary.lean, Proofs/SRootMul.lean, Proofs/DriverSound.lean, Proofs/ListSem.lean.
+-/
+import Smooth.Proofs.RulesNary
+import Smooth.Proofs.DriverSound
+
 namespace Smooth
-/-- placeholder while the property file is being written -/
-theorem C08_placeholder : (1 : Nat) = 1 := rfl
+open Expr
+
+/-! ### the rules of `Add` and `Multiply` -/
+
+/-- **C08, n-ary rules.**  Each of `addFlatten, addZeros, addLogs, addConsts, mulFlatten, mulZero,
+mulOnes, mulNegs, mulNPows, mulNRoots, mulExps, mulConsts` refines its input whenever it applies. -/
+theorem nary_rule_sound (r : RuleId) (hr : r.isNary = true) (e e' : Expr ℝ)
+    (h : r.apply realNum e = some e') : Refines e e' :=
+  nary_rule_refines hr h
+
+/-- the sign-keeping root is multiplicative (what `mulNRoots` rests on) -/
+theorem sroot_multiplicative (n : ℕ) (hn : 1 ≤ n) (a b : ℝ) :
+    sroot n (a * b) = sroot n a * sroot n b :=
+  sroot_mul_b hn a b
+
+/-- `group_by_key` is a partition: flattening the groups gives back the items, up to order -/
+theorem group_by_key_partition {κ β : Type} (eq : κ → κ → Bool)
+    (heq : ∀ a b, eq a b = true → a = b) (items : List (κ × β)) :
+    (flatGroups (groupByKey eq items)).Perm items :=
+  groupByKey_perm heq items
+
+/-- `RulesSound` for all 46 rules follows from the twelve here plus the 34 others -/
+theorem rulesSound_of_others (Allowed : RuleId → Expr ℝ → Prop)
+    (h : ∀ r e e', r.isNary = false → r.apply realNum e = some e' → Allowed r e → Refines e e') :
+    RulesSound Allowed := fun r e e' happ hal => by
+  cases hr : r.isNary
+  · exact h r e e' hr happ hal
+  · exact nary_rule_refines hr happ
+
+/-! ### constant folding, flags, congruence -/
+
+/-- **C08, constant folding.**  A variable-free expression that evaluates to `v` is replaced by the
+constant `v`. -/
+theorem fold_sound (e : Expr ℝ) (v : ℝ) (h : foldAttempt realNum e = some (.inl v)) :
+    Refines e (mkConst v) :=
+  fold_refines h
+
+/-- the memo flags are not part of the meaning -/
+theorem flags_irrelevant (g : Flags) (e : Expr ℝ) : SameSem e (e.setFlags g) :=
+  sameSem_setFlags g e
+
+/-- replacing a term of a sum / a factor of a product by a refinement refines the whole (the other
+thirteen constructor contexts: `Refines.minus_congr` … `Refines.sin_congr` in Proofs/ListSem) -/
+theorem replace_in_sum (f g : Flags) (pre post : List (Expr ℝ)) (e e' : Expr ℝ) (h : Refines e e') :
+    Refines (.add f (pre ++ e :: post)) (.add g (pre ++ e' :: post)) :=
+  Refines.add_replace f g pre post h
+
+theorem replace_in_product (f g : Flags) (pre post : List (Expr ℝ)) (e e' : Expr ℝ)
+    (h : Refines e e') : Refines (.mul f (pre ++ e :: post)) (.mul g (pre ++ e' :: post)) :=
+  Refines.mul_replace f g pre post h
+
+/-! ### the step driver -/
+
+/-- the step reports `.rule r` exactly when `stepRedex` names a redex for `r` … -/
+theorem step_event_rule (e : Expr ℝ) (r : RuleId) :
+    (stepF realNum e).2 = .rule r ↔ ∃ e₀, stepRedex e = some (r, e₀) :=
+  stepF_event_rule e r
+
+/-- … and the rule does rewrite that redex -/
+theorem step_redex_applies (e : Expr ℝ) (r : RuleId) (e₀ : Expr ℝ)
+    (h : stepRedex e = some (r, e₀)) : ∃ e₁, r.apply realNum e₀ = some e₁ :=
+  stepRedex_applies h
+
+/-- **C08, one step.**  `_take_reduction_step` refines its input provided the one rule application
+it performs (if any) is allowed. -/
+theorem step_sound (Allowed : RuleId → Expr ℝ → Prop) (hrules : RulesSound Allowed) (e : Expr ℝ)
+    (hok : StepOK Allowed e) : Refines e (stepF realNum e).1 :=
+  step_refines hrules e hok
+
+/-- **C08, `_fully_reduce`**, for EVERY budget: also when the budget runs out and the partially
+reduced expression is returned (`warned = true`), the result refines the input. -/
+theorem fully_reduce_sound (Allowed : RuleId → Expr ℝ → Prop) (hrules : RulesSound Allowed)
+    (bound : Nat) (e : Expr ℝ) (hok : RunOK Allowed bound e) :
+    Refines e (fullyReduceWith realNum bound e).expr :=
+  fullyReduce_refines hrules bound e hok
+
+/-- **C08, the normal-form pass**, on arbitrary (not necessarily reduced) input. -/
+theorem norm_reduced_sound (Allowed : RuleId → Expr ℝ → Prop) (hrules : RulesSound Allowed)
+    (bound fuel : Nat) (e e' : Expr ℝ) (w : Bool) (hok : NormRedOK Allowed bound fuel e)
+    (h : normReducedF realNum bound fuel e = some (e', w)) : Refines e e' :=
+  normReduced_refines hrules bound fuel e e' w hok h
+
+/-- **C08, `_normalize`.** -/
+theorem normalize_sound (Allowed : RuleId → Expr ℝ → Prop) (hrules : RulesSound Allowed)
+    (bound fuel : Nat) (e e' : Expr ℝ) (w : Bool) (hok : NormOK Allowed bound fuel e)
+    (h : normalizeF realNum bound fuel e = some (e', w)) : Refines e e' :=
+  normalize_refines hrules bound fuel e e' w hok h
+
+/-- read on the evaluator: a value of the input is a value of the simplified expression -/
+theorem normalize_keeps_value (Allowed : RuleId → Expr ℝ → Prop) (hrules : RulesSound Allowed)
+    (bound fuel : Nat) (e e' : Expr ℝ) (w : Bool) (hok : NormOK Allowed bound fuel e)
+    (h : normalizeF realNum bound fuel e = some (e', w)) (hwf : WF e) (p : Point ℝ) (v : ℝ)
+    (hv : evalG realNum p e = .ok v) : evalG realNum p e' = .ok v :=
+  (normalize_refines hrules bound fuel e e' w hok h).eval hwf p v hv
+
+/-- when every conceivable rule application is allowed, the side conditions hold of every run -/
+theorem run_ok_of_forall (Allowed : RuleId → Expr ℝ → Prop)
+    (hall : ∀ r e₀ e₁, r.apply realNum e₀ = some e₁ → Allowed r e₀) (fuel : Nat) (e : Expr ℝ) :
+    RunOK Allowed fuel e :=
+  RunOK_of_forall hall fuel e
+
+/-! ### non-vacuity -/
+
+/-- the rules do apply: flattening, a zero factor under a reciprocal (the domain grows), logarithms of
+one base, roots of one degree (with a non-member in between) -/
+example : ruleAddFlatten (mkAdd [mkVar "x", mkAdd [mkVar "y", mkConst (1 : ℝ)]]) =
+    some (mkAdd [mkVar "x", mkVar "y", mkConst 1]) := rfl
+
+example : ruleMulZero realNum (mkMul [mkRecip (mkVar "x"), mkConst 0]) = some (mkConst 0) := by
+  simp [ruleMulZero, isConstSuch, asConst]
+
+example : ruleAddLogs realNum (mkAdd [mkLog (mkVar "x") 2, mkLog (mkVar "y") 2]) =
+    some (mkAdd [mkLog (mkMul [mkVar "x", mkVar "y"]) 2]) := by
+  simp [ruleAddLogs, consolidate, groupByKey, groupInsert, asLog]
+
+example : ruleMulNRoots (mkMul [mkNRoot (mkVar "x") 2, mkVar "z", mkNRoot (mkVar "y") 2] : Expr ℝ) =
+    some (mkMul [mkVar "z", mkNRoot (mkMul [mkVar "x", mkVar "y"]) 2]) := rfl
+
+/-- `RulesSound` is satisfiable with a non-trivial `Allowed`: allow exactly the twelve rules here -/
+example : RulesSound (fun r _ => r.isNary = true) := fun _ _ _ happ hal => nary_rule_refines hal happ
+
+/-- a step that does fire a rule, and whose side condition holds: on `x + 0` with flagged children the
+redex is the node itself, the rule `addZeros` -/
+example :
+    let e : Expr ℝ := .add {} [.var { red := true } "x", .const { red := true } 0]
+    stepRedex e = some (.addZeros, e) ∧ StepOK (fun r _ => r.isNary = true) e := by
+  intro e
+  have h : stepRedex e = some (.addZeros, e) := by
+    simp [e, stepRedex, nodeRedex, listRedex, isRed, Expr.flags, foldAttempt, vars, varsAux,
+      varsAuxList, reducers, firstRule, RuleId.apply, ruleAddFlatten, spliceFirst, asAdd,
+      ruleAddZeros, isConstSuch, asConst]
+  refine ⟨h, fun r e₀ hr => ?_⟩
+  rw [h] at hr
+  simp only [Option.some.injEq, Prod.mk.injEq] at hr
+  rw [← hr.1]; rfl
+
+/-- the hypotheses of `normalize_sound` are satisfiable (tiny budget and fuel, so that the run can be
+computed by hand: the budget is exhausted at once, the warning is reported) -/
+example : NormOK (fun r _ => r.isNary = true) 0 2 (mkVar "x" : Expr ℝ) ∧
+    normalizeF realNum 0 2 (mkVar "x") = some (mkVar "x", true) :=
+  ⟨⟨trivial, trivial⟩, rfl⟩
+
+/-- the exhausted budget: with budget 0 the loop gives up at once, warns, and still refines -/
+example (e : Expr ℝ) : (fullyReduceWith realNum 0 e).warned = true ∧
+    Refines e (fullyReduceWith realNum 0 e).expr :=
+  ⟨rfl, fullyReduce_refines (Allowed := fun r _ => r.isNary = true)
+    (fun _ _ _ happ hal => nary_rule_refines hal happ) 0 e trivial⟩
+
 end Smooth
